@@ -22,7 +22,7 @@ def gen(chk, ops, simulate=None):
     if not simulate:
         tlc.require_coverage(r, ["Clone", "Camel", "HideA", "ExtendA", "Observe"])
     seen, out = set(), []
-    for b in r.tagged("SEQ"):
+    for b in opsreplay.expand(r.tagged("SEQ")):
         k = json.dumps(b["hist"], sort_keys=True)
         if k not in seen:
             seen.add(k)
